@@ -6,7 +6,7 @@ every configuration of the shared configuration graph (mc/configs.py)."""
 import math, cmath
 from ..common import Acc, load_pt, close, rotate
 from ..ref import tables as rt
-from ..configs import QUICK_PATHS, all_paths, apply_event, snippet as _snippet
+from ..configs import QUICK_PATHS, all_paths, apply_event, judged_tables, snippet as _snippet
 
 META = dict(
     level="model_checking", engine="E1",
@@ -203,7 +203,7 @@ def run_path(args):
     live = [("public", pt.elements)]
     if "T_groups" in path:
         live.append(("T", tables["T"]))
-    for label, T in live:
+    for label, T in judged_tables(path, live):
         cells = sweep(pt, T, label, path, acc)
         acc.states += cells
         acc.nontrivial += cells
